@@ -558,6 +558,8 @@ func (m *MdnsManager) processMdnsEntry(elements map[string]string, name, host st
 		// avahi sends an item for each network address, merge them
 
 		// we assume only network addresses are added
+		// the entry is the one of the registry: change it under the lock its readers hold
+		m.mux.Lock()
 		for _, address := range addresses {
 			// only add if it is not added yet
 			isNewElement := true
@@ -574,6 +576,7 @@ func (m *MdnsManager) processMdnsEntry(elements map[string]string, name, host st
 				updated = true
 			}
 		}
+		m.mux.Unlock()
 
 		if updated {
 			m.setMdnsEntry(ski, entry)
